@@ -985,18 +985,22 @@ def mc_replay(chk, tier, which, strict=False):
         jobs = [(prog, h['setup'], h['hist']) for h in hists]
         nbad = 0
         eng = Engine(chk, chk.pid, known_h(chk))
+        judged = 0
         with ThreadPoolExecutor(max_workers=min(core.NCPU, 12)) as pool:
             for num, (job, (bad, events)) in enumerate(zip(jobs, pool.map(replay_history_events, jobs))):
                 chk.count(('mc', name, json.dumps([cmd_line(h['cmd']) for h in job[2]])))
                 chk.traces += 1
-                if bad and events is not None and nbad < 6:
+                if bad and events is not None and nbad < 6 and judged < 6:
                     # the expectation was computed under the shipped rule of the listed findings: a tree on which a finding
                     # is repaired differs from it legitimately - the recorded execution itself is judged (two passes)
+                    judged += 1
                     before = len(chk.violations)
                     rej = eng.validate([{'id': f'mc-{name}-{num}', 'cx': cx, 'events': events, 'prog': prog}])
                     if not rej and len(chk.violations) == before:
                         continue
-                    bad = bad if len(chk.violations) == before else []
+                    if len(chk.violations) != before:
+                        nbad += 1
+                        bad = []
                 if bad and nbad < 6:
                     nbad += 1
                     clause, exp, got = bad[0]
